@@ -168,6 +168,31 @@ func (vc *VC) forceSpecTypes() {
 	}
 }
 
+// restoreLinks: regions that back arrays of this activation (linked arrays) are ghost artefacts or dead stack storage:
+// their contents are restored to the entry contents so that frame statements about memory can be exact.
+func (vc *VC) restoreLinks(st *State) {
+	if len(st.links) == 0 {
+		return
+	}
+	var lk []string
+	for k := range st.links {
+		lk = append(lk, k)
+	}
+	sort.Strings(lk)
+	for _, k := range lk {
+		l := st.links[k]
+		if l.heap {
+			continue
+		}
+		mn := vc.memName(l.elem)
+		cur := vc.memTerm(st, l.elem)
+		ent := vc.entry.mem[mn]
+		st.mem[mn] = vc.def("mem", vc.S.memSort(vc.S.sortOf(l.elem)), fmt.Sprintf("(store %s %s (select %s %s))", cur, l.rid, ent, l.rid))
+	}
+	st.links = map[string]*Link{}
+	vc.assum["slices of local arrays do not outlive the function that creates them"] = true
+}
+
 // finish emits the postcondition and frame obligations at the (merged) return point.
 func (vc *VC) finish(top *Frame) {
 	fn := vc.fn
@@ -180,11 +205,17 @@ func (vc *VC) finish(top *Frame) {
 		results := fn.Signature.Results()
 		for k, r := range top.rets {
 			st := r.st.clone()
+			var robjs []*Obj
 			for o := range st.objs {
+				robjs = append(robjs, o)
+			}
+			sort.Slice(robjs, func(i, j int) bool { return robjs[i].id < robjs[j].id })
+			for _, o := range robjs {
 				if st.objs[o].T != "" {
 					vc.syncOut(st, o)
 				}
 			}
+			vc.restoreLinks(st)
 			extra := map[string]SV{}
 			for i := 0; i < results.Len(); i++ {
 				extra[fmt.Sprintf("result.%d", i)] = r.vals[i]
@@ -234,27 +265,7 @@ func (vc *VC) finish(top *Frame) {
 			vc.syncOut(st, o)
 		}
 	}
-	// regions that back arrays of this activation (linked arrays) are ghost artefacts or dead stack storage:
-	// their contents are restored to the entry contents so that frame statements about memory can be exact.
-	if len(st.links) > 0 {
-		var lk []string
-		for k := range st.links {
-			lk = append(lk, k)
-		}
-		sort.Strings(lk)
-		for _, k := range lk {
-			l := st.links[k]
-			if l.heap {
-				continue
-			}
-			mn := vc.memName(l.elem)
-			cur := vc.memTerm(st, l.elem)
-			ent := vc.entry.mem[mn]
-			st.mem[mn] = vc.def("mem", vc.S.memSort(vc.S.sortOf(l.elem)), fmt.Sprintf("(store %s %s (select %s %s))", cur, l.rid, ent, l.rid))
-		}
-		st.links = map[string]*Link{}
-		vc.assum["slices of local arrays do not outlive the function that creates them"] = true
-	}
+	vc.restoreLinks(st)
 	results := fn.Signature.Results()
 	extra := map[string]SV{}
 	var cols []SV
